@@ -1,5 +1,5 @@
 """C05 (MAC family: MacTrace.tla)."""
-from . import macfam, core, purefn, mcdata
+from . import macfam, core, purefn, mcdata, mcmc
 import glob, os
 PID = "C05"
 
@@ -41,7 +41,9 @@ def run():
         'seeded random histories (9 regions x nb/async/async+ClassC) dominated by downlinks of every class: fresh (gaps 1, 2..200, 16384), replayed, stale, far-future (gap > 16384), bit-flipped, foreign-key, other-address, random, oversize; Codec.tla decides authenticity, Mac!NextFcnt freshness; every delivery, counter advance, response and queued answer is compared',
         macfam.COMMON_ASSUMPTIONS, mc=[("MCFcnt.tla", "MCFcnt.cfg", {"workers": 4})], extra=[arithmetic, lemma,
                # beyond the default build: the multicast data path (cargo feature `multicast`) under McTrace.tla
-               mcdata.extra(PID)])
+               mcdata.extra(PID),
+               # specification -> implementation: event sequences of the design-level model of the group table (MCMc.tla)
+               mcmc.extra(PID)])
 
 
 def replay(path):
